@@ -44,3 +44,12 @@ Example C19_nonvacuous :
   /\ encode_lineno_tab_30 1 [(0, 1); (10, 130); (20, 3); (620, 2003)]
      = [0; 0; 10; 127; 0; 2; 10; 129; 255; 0; 255; 0; 90; 127; 0; 127; 0; 127; 0; 127; 0; 127; 0; 127; 0; 127; 0; 127; 0; 127; 0; 127; 0; 127; 0; 127; 0; 127; 0; 127; 0; 127; 0; 95].
 Proof. split; [cbn; lia|]. split; [cbn; lia|]. vm_compute. reflexivity. Qed.
+
+(* Code310.encode_lineno_tab also writes a lead-in of "no line" ranges when the mapping does not start at offset 0; for a mapping that
+   does, what it writes is the table of the theorem above *)
+Theorem C19_code310_lead_in_absent_at_0 : forall first codelen l r,
+  encode_lineno_tab_310_full first codelen ((0, l) :: r) = encode_lineno_tab_310 first codelen ((0, l) :: r).
+Proof. reflexivity. Qed.
+Example C19_code310_lead_in : encode_lineno_tab_310_full 1 40 [(4, 5); (8, 6); (20, 9)] = [4; 128; 4; 4; 12; 1; 20; 3]
+  /\ lead310 508 = [(254, 128); (254, 128)] /\ lead310 300 = [(254, 128); (46, 128)].
+Proof. repeat split; vm_compute; reflexivity. Qed.
